@@ -378,8 +378,8 @@ impl GlobalInferenceCtx<'_> {
         );
 
         // if we're trying to replace {uint} with ?u64,
-        // what we *should* do is replace {uint} with u64.
-        if !found_ty.is_optional()
+        // what we *should* do is replace {uint} with u64 (and with u64 for ??u64 as well).
+        while !found_ty.is_optional()
             && let Ty::Optional { sub_ty } = new_ty.absolute_ty()
         {
             new_ty = *sub_ty;
